@@ -66,6 +66,8 @@ SCENARIOS = [
      {'t1': S(1, 1, 2), 't2': S(2, 1, 1), 't3': S(1, 1, 4)}, ['t1']),
     ('nodes3',    R.Layout(3, 1, 0, 0, 0),
      {'t1': S(1, 1), 't2': S(1, 1, prio=1), 't3': S(2, 1)}, ['t2']),
+    ('unfit-mpi', R.Layout(2, 2, 0, 0, 0),
+     {'t1': S(1, 1), 't2': S(1, 1), 't3': S(6, 1)}, []),
 ]
 
 # directed environment schedules (scenario, script): interleavings worth having
@@ -86,6 +88,12 @@ def directed():
         out.append(('colo',     [(1, ('arrive', ['t1'])), (1, ('arrive', ['t3'])),
                                  (k, ('cancelc', ['t3'])), (k, ('arrive', ['t2'])), (k, ('flush',)),
                                  (k + 4, ('complete', 't1'))]))
+    # several completions in ONE unschedule message, then a request which can never fit
+    for k in range(5, 12):
+        out.append(('unfit-mpi', [(1, ('arrive', ['t1', 't2'])), (k, ('complete_bulk', ['t1', 't2'])),
+                                  (k + 4, ('arrive', ['t3']))]))
+        out.append(('unfit-mpi', [(1, ('arrive', ['t1', 't2'])), (k, ('arrive', ['t3'])),
+                                  (k + 3, ('complete_bulk', ['t1', 't2']))]))
     return out
 
 
@@ -190,12 +198,25 @@ LAYOUTS = [
 ]
 
 
+def random_shape(rng, lay):
+    '''attributes combined freely (the catalogue only has the combinations somebody thought of)'''
+    gpr = 0
+    if lay.ng and rng.random() < 0.45:
+        gpr = rng.choice([1, 2, lay.su, lay.su, 2 * lay.su] if lay.su > 1 else [1, 1, 2])
+        if gpr < lay.su and lay.su % gpr:
+            gpr = lay.su
+    return S(rng.choice([1, 1, 2, 2, 3, 4, 5]), rng.choice([1, 1, 1, 2]), gpr,
+             rng.choice([0, 0, 1, 2]) if lay.lfs else 0, rng.choice([0, 0, 1, 2]) if lay.mem else 0,
+             rpn=rng.choice([0, 0, 1, 2]), colo=rng.choice(['none', 'none', 'none', 'a', 'b']))
+
+
 def random_case(rng, with_supplied=True):
     lay = rng.choice(LAYOUTS)
     n   = rng.randint(2, 6)
     shapes = {}
+    free_form = rng.random() < 0.4
     for i in range(n):
-        sh = dict(rng.choice(CATALOGUE))
+        sh = random_shape(rng, lay) if free_form else dict(rng.choice(CATALOGUE))
         sh['prio'] = rng.choice([0, 0, 0, 1, 2])
         if sh['gpr'] and lay.su == 4 and sh['gpr'] in (1, 2):
             sh['gpr'] = rng.choice([1, 2, 4])
@@ -328,16 +349,41 @@ def run(chk, tier, seed):
     # ---- 4b. fragmentation workloads: many small nodes, mixed rank counts, both
     #          node-iteration modes (continuity restarts in the non-scattered search)
     FRAG = [R.Layout(4, 1, 0, 0, 0), R.Layout(3, 2, 0, 0, 0), R.Layout(4, 2, 0, 0, 0),
-            R.Layout(3, 1, 0, 0, 0)]
-    for i in range(100 if quick else 2000):
+            R.Layout(3, 1, 0, 0, 0), R.Layout(4, 4, 0, 0, 0), R.Layout(4, 3, 0, 0, 0)]
+    for i in range(160 if quick else 3000):
         lay = rng.choice(FRAG)
-        shapes = {'t%d' % (j + 1): S(rng.choice([1, 1, 1, 2, 2, 3]), 1, prio=rng.choice([0, 0, 1]))
-                  for j in range(rng.randint(4, 7))}
+        big = lay.nc >= 3
+        shapes = {'t%d' % (j + 1): S(rng.choice([1, 2, 2, 3, 3, 5, 6, 7] if big else [1, 1, 1, 2, 2, 3]), 1,
+                                     prio=rng.choice([0, 0, 1]))
+                  for j in range(rng.randint(5, 8) if big else rng.randint(4, 7))}
         s, sc, pe = rng.randrange(10 ** 9), (i % 4 == 0), rng.choice([0.1, 0.25])
         rig = R.SchedRig(lay, shapes, seed=s, cancelable=[], scattered=sc, p_env=pe)
         traces.append((lay, rig.run()))
         inputs.append({'kind': 'random', 'seed': s, 'layout': lay.__dict__, 'shapes': shapes,
                        'cancelable': [], 'scattered': sc, 'p_env': pe})
+
+    # ---- 4b'. one MPI request waiting ALONE on a full pilot while single-core fillers complete one by
+    #           one in random order: every release is followed by a quiescence point at which the
+    #           'alone starts' obligation is judged - in scattered and (mostly) non-scattered mode
+    for i in range(60 if quick else 900):
+        lay = rng.choice([R.Layout(4, 2, 0, 0, 0), R.Layout(4, 3, 0, 0, 0), R.Layout(4, 4, 0, 0, 0),
+                          R.Layout(3, 2, 0, 0, 0), R.Layout(5, 2, 0, 0, 0)])
+        nfill  = lay.nn * lay.nc
+        shapes = {'f%02d' % j: S(1, 1) for j in range(nfill)}
+        shapes['tm'] = S(rng.randint(lay.nc + 1, 2 * lay.nc + 1), 1)
+        order  = sorted(u for u in shapes if u != 'tm')
+        rng.shuffle(order)
+        script = [(1, ('arrive', sorted(u for u in shapes if u != 'tm'))), (6 + 3 * nfill, ('arrive', ['tm']))]
+        at = 6 + 3 * nfill + 8
+        for u in order[:rng.randint(2, nfill)]:
+            script.append((at, ('complete', u)))
+            at += rng.choice([9, 12, 15])
+        sc = (i % 5 == 0)
+        rig = ScriptRig(lay, shapes, script=list(script), seed=0, cancelable=[], scattered=sc,
+                        max_points=4000)
+        traces.append((lay, rig.run()))
+        inputs.append({'kind': 'tlc-behaviour', 'scenario': 'alone-mpi', 'script': script,
+                       'layout': lay.__dict__, 'shapes': shapes, 'scattered': sc})
 
     # ---- 4c. (thorough) a pilot-sized bulk: more than 512 releases pending in one loop
     #          iteration (the drain of the unschedule queue works in bulks of 512)
